@@ -235,10 +235,6 @@ impl<'inner, 'buf> ParseEvents<'inner, 'buf> {
                     }
 
                     let (ty_slice, remaining) = buf.split_at(4);
-                    *buf = remaining;
-                    if let Some(bytes_left) = bytes_left {
-                        *bytes_left -= 4;
-                    }
 
                     let mut ty = [0u8; 4];
                     ty.copy_from_slice(ty_slice);
@@ -248,6 +244,11 @@ impl<'inner, 'buf> ParseEvents<'inner, 'buf> {
                         return Err(Error::ValidationFailed(
                             "brob box, jxl boxes and jbrd box cannot be Brotli-compressed",
                         ));
+                    }
+
+                    *buf = remaining;
+                    if let Some(bytes_left) = bytes_left {
+                        *bytes_left -= 4;
                     }
 
                     let ty = ContainerBoxType(ty);
